@@ -131,6 +131,14 @@ def build_inputs(base, classes, tier):
                 jobs.append(("equal_chains n=%d distinct=%d" % (n, distinct), ["balance", "-X", x] + now + [p]))
                 jobs.append(("equal_chains n=%d distinct=%d" % (n, distinct), ["balance", "-X", x, "--historical"] + now + [p]))
             jobs.append(("equal_chains n=%d distinct=%d" % (n, distinct), ["primitive", "eval", "--date", "2024-03-01", "-X", "DST", "-f", p, "10 SRC"]))
+            # a CSV configuration whose header lacks n of the configured labels: the error lists them
+            labels = [("payee", "Payee"), ("amount", "Amount"), ("balance", "Balance"), ("note", "Memo")][:min(n, 4)]
+            cy = ("path: missing.csv\nencoding: UTF-8\naccount: \"Assets:Src\"\naccount_type: asset\ncommodity: USD\nformat:\n  date: \"%Y-%m-%d\"\n  fields:\n    date: \"Date\"\n"
+                  + "".join("    %s: \"%s\"\n" % kv for kv in labels) + ("" if any(k == "payee" for k, _ in labels) else "    payee: \"Date\"\n")
+                  + ("" if any(k == "amount" for k, _ in labels) else "    amount: \"Date\"\n"))
+            ccp = write(d, "missing_config.yml", cy)
+            csp = write(d, "missing.csv", "Date,Other,Another\n2024-01-05,x,y\n")
+            jobs.append(("missing_labels n=%d" % n, ["import", "-c", ccp, csp]))
             yaml, xml = camt_fields_case(min(n, 4), distinct)
             cp = write(d, "config.yml", yaml)
             sp = write(d, "stmt.xml", xml)
@@ -191,7 +199,7 @@ def check(run):
                 run.report("crash_" + label.split(" ")[0], {"class": label, "argv": args, "_mode": "c13"}, {"status": o[0], "stderr": o[2].decode(errors="replace")[-500:]},
                            "crash: `okane %s` died with signal %d" % (" ".join(args), -o[0]))
                 break
-        expect_ok = not label.startswith(("error_text", "pick_single", "corpus", "missing_rate")) and not (label.startswith("implied_pair") and "--historical" in args)
+        expect_ok = not label.startswith(("error_text", "pick_single", "corpus", "missing_rate", "missing_labels")) and not (label.startswith("implied_pair") and "--historical" in args)
         if expect_ok and any(o[0] != 0 for o in outs):
             bad = next(o for o in outs if o[0] != 0)
             raise ToolError("generator defect: `okane %s` (class %s) is expected to succeed but fails: %s" % (" ".join(args), label, bad[2].decode(errors="replace")[-600:]))
